@@ -368,6 +368,71 @@ fn purity_same_rc(case: &DocCase, expect_json: &str) -> Option<String> {
     }
 }
 
+/// CRLF sources: '\r' is an ordinary character at the end of a line; only the item count,
+/// line numbers and status are compared (the pretty form drops the '\r', which the statement
+/// does not forbid).
+pub fn check15_lines_only(case: &DocCase) -> Res {
+    let an = analyse(&case.src, &case.ds, &case.de, &RCfg::from(&case.cfg));
+    let regions = an.regions(false);
+    let class = "crlf-line-ranges";
+    let nontrivial = !regions.is_empty();
+    let fail = |c: &str, d: String| Res {
+        viol: Some((c.to_string(), d)),
+        class,
+        nontrivial,
+    };
+    let js = match lst(case, ListMode::List, true) {
+        Ok(s) => s,
+        Err((c, d)) => return fail(&c, d),
+    };
+    let items = match parse_json(&js) {
+        Ok(i) => i,
+        Err(e) => return fail("json-shape", e),
+    };
+    let want: Vec<(usize, usize)> = regions
+        .iter()
+        .map(|r| (line_of(&case.src, r.s), line_of(&case.src, last_char_start(&case.src, r))))
+        .collect();
+    let got: Vec<(usize, usize)> = items.iter().map(|i| (i.first, i.last)).collect();
+    if want != got {
+        return fail(
+            "line-range-differs",
+            format!("CRLF source: reference lines {want:?}, list says {got:?}"),
+        );
+    }
+    // every numbered line of every item is that source line (without its '\r')
+    let src_lines: Vec<&str> = case.src.split('\n').collect();
+    for (k, j) in items.iter().enumerate() {
+        let bl: Vec<&str> = j.block.split('\n').collect();
+        if bl.len() < 3 || bl.len() - 2 != j.last - j.first + 1 {
+            return fail("item-line-count", format!("item {k}: {:?}", j.block));
+        }
+        let w = number_column_width(&j.block).unwrap_or(9);
+        for (i, l) in bl[1..bl.len() - 1].iter().enumerate() {
+            let n = j.first + i;
+            let text = n
+                .checked_sub(1)
+                .and_then(|i| src_lines.get(i))
+                .copied()
+                .unwrap_or("<no such line>")
+                .trim_end_matches('\r')
+                .replace('\t', "    ");
+            let want = format!("{:>width$} |{text}", n, width = w.saturating_sub(2));
+            if l.trim_end_matches('\r') != want {
+                return fail(
+                    "numbered-line-is-not-that-source-line",
+                    format!("item {k}: expected {want:?}, got {l:?}"),
+                );
+            }
+        }
+    }
+    Res {
+        viol: None,
+        class,
+        nontrivial,
+    }
+}
+
 // ------------------------------------------------------------------------------------ C16
 
 pub fn check16(case: &DocCase) -> Res {
@@ -627,7 +692,7 @@ fn ast_params(prop: &str, tier: Tier) -> AstParams {
         ("C17", Tier::Quick) => AstParams {
             max_lines: 7,
             max_depth: 2,
-            block_kinds: vec![Kind::Future, Kind::Expired, Kind::SkipFuture, Kind::SkipExpired],
+            block_kinds: vec![Kind::Future, Kind::Expired, Kind::Untargeted, Kind::SkipFuture, Kind::SkipExpired],
             inline_kinds: vec![Kind::Future, Kind::Expired],
             blank: false,
             short_unwrap: true,
@@ -638,7 +703,7 @@ fn ast_params(prop: &str, tier: Tier) -> AstParams {
         ("C17", Tier::Thorough) => AstParams {
             max_lines: 8,
             max_depth: 3,
-            block_kinds: vec![Kind::Future, Kind::Expired, Kind::SkipFuture, Kind::SkipExpired, Kind::Unregistered],
+            block_kinds: vec![Kind::Future, Kind::Expired, Kind::Untargeted, Kind::SkipFuture, Kind::SkipExpired, Kind::Unregistered],
             inline_kinds: vec![Kind::Future, Kind::Expired],
             blank: false,
             short_unwrap: true,
@@ -664,6 +729,7 @@ fn ast_params(prop: &str, tier: Tier) -> AstParams {
 
 fn doc_check(prop: &str, case: &DocCase) -> Res {
     match prop {
+        "C15" if case.src.contains('\r') => check15_lines_only(case),
         "C15" => check15(case),
         "C16" => check16(case),
         _ => check17(case),
@@ -762,6 +828,14 @@ pub fn run(r: &Report, prop: &str) {
                     cfg: cfg.clone(),
                 };
                 eval(l, prop, &case, items.len() >= 2);
+                if prop == "C15" {
+                    // the same document with CRLF line ends (line numbers must not drift)
+                    let crlf = DocCase {
+                        src: case.src.replace('\n', "\r\n"),
+                        ..case.clone()
+                    };
+                    eval(l, prop, &crlf, false);
+                }
                 if prop == "C15" || prop == "C17" {
                     // the same source again, on the same thread, under configurations in which
                     // nothing / everything is ready: listing is a function of source AND
